@@ -1,18 +1,552 @@
-//! C19 — not built yet (stub).
+//! C19 — formatted values show the correctly rounded number.
+//!
+//! Spaces
+//!   grid      every +-d.ddd x 10^e (<=3 / <=4 significant digits) x 14 fixed-decimal / percentage patterns,
+//!             plus General for every value; one pool case per mantissa
+//!   families  carry / tie / leading-zero families up to 15 significant digits x patterns
+//!   text      General with text cells
+//!   builtin   every built-in format id 0..49 x a value alphabet (no-panic clause)
+//! Oracle: c19_ref (exact decimal strings, round half away from zero).
+#[path = "c19_ref.rs"]
+mod c19_ref;
+use self::c19_ref::*;
 use crate::common::*;
+use crate::e1::*;
 use crate::pool::*;
-use serde_json::Value;
+use serde_json::{json, Value};
+use umya_spreadsheet::helper::number_format::to_formatted_string;
 
 pub fn entry() -> crate::Entry {
     crate::Entry { id: "C19", run, space, replay }
 }
-pub fn space(_tier: Tier, _id: &str) -> Option<Box<dyn Space>> {
-    None
+
+const E_MIN: i32 = -7;
+const E_MAX: i32 = 15;
+
+fn guarded<T, F: FnOnce() -> T + std::panic::UnwindSafe>(f: F) -> Result<T, String> {
+    std::panic::catch_unwind(f).map_err(|e| panic_msg(&e))
 }
-fn replay(_tier: Tier, _case: &Value) -> Vec<Violation> {
-    vec![]
+
+fn via_helper(text: &str, code: &str) -> Result<String, String> {
+    let (t, c) = (text.to_string(), code.to_string());
+    guarded(move || to_formatted_string(&t, &c))
 }
-fn run(_ctx: &Ctx) -> i32 {
-    eprintln!("MACHINERY: C19 is not built yet");
-    2
+/// numeric cell with a format code through Cell::get_formatted_value and Worksheet::get_formatted_value
+fn via_cell(x: f64, code: Option<&str>) -> Result<(String, String), String> {
+    let c = code.map(|s| s.to_string());
+    guarded(move || {
+        let mut ws = umya_spreadsheet::Worksheet::default();
+        {
+            let cell = ws.get_cell_mut((1, 1));
+            cell.set_value_number(x);
+            if let Some(c) = &c {
+                cell.get_style_mut().get_number_format_mut().set_format_code(c.clone());
+            }
+        }
+        (ws.get_cell((1, 1)).unwrap().get_formatted_value(), ws.get_formatted_value((1, 1)))
+    })
+}
+
+fn mag_tag(v: &Val) -> &'static str {
+    if v.is_zero() {
+        return "mag:zero";
+    }
+    let int_digits = v.m.len() as i32 + v.k;
+    if int_digits <= 0 {
+        "mag:<1"
+    } else if int_digits <= 3 {
+        "mag:1-3-int-digits"
+    } else {
+        "mag:>=4-int-digits"
+    }
+}
+
+/// all clauses for one value (General + every pattern).  `cell_pat` selects the pattern that is also
+/// observed through Cell / Worksheet.
+fn check_value(sink: &mut Sink, v: &Val, cell_pat: usize) {
+    let text = v.text();
+    let x: f64 = match text.parse() {
+        Ok(x) => x,
+        Err(_) => panic!("harness built an unparsable number {:?}", text),
+    };
+    if x.to_string() != text {
+        // not the shortest representation of its double: outside the stated domain
+        sink.count("skipped_noncanonical", 1);
+        return;
+    }
+    let neg_tag = if v.neg { "negative" } else { "non-negative" };
+    let mag = mag_tag(v);
+    // ---- General: numbers are shown unchanged
+    sink.evaluations += 1;
+    let gtags = ["general", neg_tag, mag];
+    let gcase = json!({"value": text, "pattern": "General"});
+    match via_helper(&text, "General") {
+        Err(m) => sink.violations.push(Violation::new("general-number", &format!("panic:{}", panic_class(&m)), &gtags, gcase.clone(), m)),
+        Ok(got) => {
+            if got != text {
+                let sym = if got.parse::<f64>().ok() == Some(x) { "same-number-other-text" } else { "number-changed" };
+                sink.violations.push(Violation::new("general-number", sym, &gtags, gcase.clone(), format!("to_formatted_string({:?}, General) = {:?}", text, got)));
+            }
+        }
+    }
+    match via_cell(x, None) {
+        Err(m) => sink.violations.push(Violation::new("general-number", &format!("panic:{}", panic_class(&m)), &gtags, gcase.clone(), m)),
+        Ok((a, b)) => {
+            if a != text || b != text {
+                let sym = if a.parse::<f64>().ok() == Some(x) && b == a { "same-number-other-text" } else { "number-changed" };
+                sink.violations.push(Violation::new("general-number", sym, &gtags, gcase.clone(), format!("numeric cell {} without number format: Cell::get_formatted_value={:?} Worksheet::get_formatted_value={:?}", text, a, b)));
+            }
+        }
+    }
+    // ---- fixed-decimal and percentage patterns
+    for (pi, pat) in PATTERNS.iter().enumerate() {
+        sink.evaluations += 1;
+        let w = reference(v, pat);
+        let fmul_below = if pat.pct && pat.d == 0 && w.tie {
+            // is the double product 100*x below the exact tie q+0.5 ?  (q+0.5 is exact in f64 for q < 2^52)
+            let q: f64 = w.trunc_int.parse().unwrap();
+            (100f64 * x).abs() < q + 0.5
+        } else {
+            false
+        };
+        let mut shape = shape_tag(v, pat, fmul_below);
+        if shape == "pct:scaled-integer" {
+            // is the exact decimal product x*100 a double at all?
+            let n: u128 = w.int.parse().unwrap();
+            if (n as f64) as u128 != n {
+                shape = "pct:scaled-integer:not-a-double";
+            }
+        }
+        let ptag = format!("pat:{}", pat.code);
+        let tags = [shape, ptag.as_str(), neg_tag, mag];
+        let clause = if pat.pct { "percentage" } else { "fixed-decimal" };
+        sink.count(&format!("shape {}", shape), 1);
+        let mut judge = |got: Result<String, String>, via: &str, sink: &mut Sink| {
+            let case = json!({"value": text, "pattern": pat.code, "via": via});
+            match got {
+                Err(m) => {
+                    sink.count(&format!("bad {} | panic | {}", clause, shape), 1);
+                    sink.violations.push(Violation::new(clause, &format!("panic:{}", panic_class(&m)), &tags, case, format!("{} @ {:?} panicked: {} (expected {:?})", text, pat.code, m, w.text)))
+                }
+                Ok(got) => {
+                    sink.obs(&got);
+                    if let Some(sym) = symptom(&got, v, pat, &w) {
+                        sink.count(&format!("bad {} | {} | {}", clause, sym, shape), 1);
+                        if let Ok(f) = std::env::var("UV_C19_PRINT") {
+                            if format!("{} | {} | {}", clause, sym, shape).contains(&f) {
+                                eprintln!("PRINT {} @ {:?} via {} -> {:?}, want {:?} [{}|{}]", text, pat.code, via, got, w.text, sym, shape);
+                            }
+                        }
+                        sink.violations.push(Violation::new(clause, &sym, &tags, case, format!("{} @ {:?} via {} -> {:?}, correctly rounded: {:?}", text, pat.code, via, got, w.text)));
+                    }
+                }
+            }
+        };
+        judge(via_helper(&text, pat.code), "to_formatted_string", sink);
+        if pi == cell_pat {
+            sink.evaluations += 1;
+            match via_cell(x, Some(pat.code)) {
+                Err(m) => judge(Err(m), "Cell::get_formatted_value", sink),
+                Ok((a, b)) => {
+                    if a != b {
+                        sink.violations.push(Violation::new(clause, "entry-points-disagree", &tags, json!({"value": text, "pattern": pat.code}), format!("Cell::get_formatted_value={:?} Worksheet::get_formatted_value={:?}", a, b)));
+                    }
+                    judge(Ok(a), "Cell::get_formatted_value", sink);
+                }
+            }
+        }
+    }
+}
+
+// ------------------------------------------------------------------------------------------------
+struct Grid {
+    /// (mantissa digits, exponents e of d.ddd x 10^e)
+    cases: Vec<(String, Vec<i32>)>,
+}
+fn grid(tier: Tier) -> Grid {
+    let max = if tier == Tier::Thorough { 9999 } else { 999 };
+    let mut cases = vec![];
+    for m in 1..=max {
+        if m % 10 == 0 {
+            continue;
+        }
+        let es: Vec<i32> = if tier == Tier::Thorough || m < 100 { (E_MIN..=E_MAX).collect() } else { (-3..=3).collect() };
+        cases.push((m.to_string(), es));
+    }
+    Grid { cases }
+}
+impl Space for Grid {
+    fn len(&self) -> u64 {
+        self.cases.len() as u64
+    }
+    fn describe(&self, i: u64) -> Value {
+        let (m, es) = &self.cases[i as usize];
+        json!({"kind":"mantissa","digits": m, "exponents": [es[0], es[es.len()-1]], "signs": "+-", "patterns": PATTERNS.len()})
+    }
+    fn run(&self, i: u64, sink: &mut Sink) {
+        let (m, es) = &self.cases[i as usize];
+        let mi: usize = m.parse().unwrap();
+        for &e in es {
+            for neg in [false, true] {
+                // d.ddd x 10^e  ==  M x 10^(e - (len-1))
+                let v = Val::new(neg, m, e - (m.len() as i32 - 1));
+                sink.beat.note(&v.text());
+                check_value(sink, &v, (mi + (e - E_MIN) as usize + neg as usize * 7) % PATTERNS.len());
+            }
+        }
+    }
+}
+
+// ------------------------------------------------------------------------------------------------
+fn families() -> Vec<Val> {
+    let mut out: Vec<Val> = vec![Val::new(false, "0", 0)];
+    // 9.99..9 with the point at every position (and up to three zeros after the point)
+    for n in 1..=15usize {
+        for p in -3..=(n as i32) {
+            out.push(Val::new(false, &"9".repeat(n), p - n as i32));
+        }
+    }
+    // 0.00..05 and 1.00..05
+    for j in 1..=8 {
+        out.push(Val::new(false, "5", -j));
+    }
+    for j in 1..=14usize {
+        out.push(Val::new(false, &format!("1{}5", "0".repeat(j - 1)), -(j as i32)));
+    }
+    // x . prefix(d) tail : ties and their neighbours at every rounding position 0..6
+    for x in ["0", "1", "9", "99", "1234"] {
+        for d in 0..=6usize {
+            let mut prefixes: Vec<String> = vec!["0".repeat(d), "1234567"[..d].to_string(), "9".repeat(d)];
+            if d >= 2 {
+                prefixes.push(format!("0{}", "9".repeat(d - 1)));
+                prefixes.push(format!("{}1", "0".repeat(d - 1)));
+                prefixes.push(format!("{}9", "0".repeat(d - 1)));
+            }
+            prefixes.dedup();
+            for p in &prefixes {
+                let used = x.trim_start_matches('0').len() + d;
+                let room = 15usize.saturating_sub(used);
+                let mut tails: Vec<String> = vec!["5".into(), "4".into(), "6".into(), "9".into(), "49".into(), "4999".into(), "5001".into(), "51".into()];
+                if room >= 6 {
+                    tails.push(format!("4{}", "9".repeat(room - 1)));
+                    tails.push(format!("5{}1", "0".repeat(room - 2)));
+                }
+                for t in &tails {
+                    let digits = format!("{}{}{}", x, p, t);
+                    out.push(Val::new(false, &digits, -((p.len() + t.len()) as i32)));
+                }
+            }
+        }
+    }
+    let mut seen = std::collections::HashSet::new();
+    out.retain(|v| seen.insert(v.clone()));
+    out
+}
+const FAM_PER_CASE: usize = 4;
+struct Families {
+    vals: Vec<Val>,
+}
+impl Space for Families {
+    fn len(&self) -> u64 {
+        ((self.vals.len() + FAM_PER_CASE - 1) / FAM_PER_CASE) as u64
+    }
+    fn describe(&self, i: u64) -> Value {
+        let lo = i as usize * FAM_PER_CASE;
+        let hi = (lo + FAM_PER_CASE).min(self.vals.len());
+        json!({"kind":"family-values","values": self.vals[lo..hi].iter().map(|v| v.text()).collect::<Vec<_>>(), "signs": "+-"})
+    }
+    fn run(&self, i: u64, sink: &mut Sink) {
+        let lo = i as usize * FAM_PER_CASE;
+        let hi = (lo + FAM_PER_CASE).min(self.vals.len());
+        for (j, v) in self.vals[lo..hi].iter().enumerate() {
+            for neg in [false, true] {
+                if neg && v.is_zero() {
+                    continue;
+                }
+                let mut v = v.clone();
+                v.neg = neg;
+                sink.beat.note(&v.text());
+                check_value(sink, &v, (lo + j + neg as usize * 5) % PATTERNS.len());
+            }
+        }
+    }
+}
+
+// ------------------------------------------------------------------------------------------------
+const PLAIN_TEXTS: [&str; 20] = ["a", "abc", "Hello, world", " a ", "a\nb", "\u{e9}\u{540d}", "1,5", "12abc", "1.2.3", "--1", "$5", "50%", "1 000", "TRUE", "#N/A", "'1", "0x10", "\u{ff11}\u{ff12}", "1_000", " 5"];
+const NUMERIC_LOOKING_TEXTS: [&str; 12] = ["007", "1.50", "1e3", "+5", ".5", "5.", "1E2", "00", "-0", "1e-3", "0.10", "100000000000000000000"];
+struct Texts;
+impl Space for Texts {
+    fn len(&self) -> u64 {
+        (PLAIN_TEXTS.len() + NUMERIC_LOOKING_TEXTS.len()) as u64
+    }
+    fn describe(&self, i: u64) -> Value {
+        let i = i as usize;
+        let t = if i < PLAIN_TEXTS.len() { PLAIN_TEXTS[i] } else { NUMERIC_LOOKING_TEXTS[i - PLAIN_TEXTS.len()] };
+        json!({"kind":"text-cell","text": t, "format": "General"})
+    }
+    fn tags(&self, i: u64) -> Vec<String> {
+        vec![if (i as usize) < PLAIN_TEXTS.len() { "text:plain".to_string() } else { "text:numeric-looking".to_string() }]
+    }
+    fn run(&self, i: u64, sink: &mut Sink) {
+        let i = i as usize;
+        let plain = i < PLAIN_TEXTS.len();
+        let t = if plain { PLAIN_TEXTS[i] } else { NUMERIC_LOOKING_TEXTS[i - PLAIN_TEXTS.len()] };
+        let tag = if plain { "text:plain" } else { "text:numeric-looking" };
+        let case = self.describe(i as u64);
+        let mut judge = |got: Result<String, String>, via: &str, sink: &mut Sink| {
+            sink.evaluations += 1;
+            match got {
+                Err(m) => sink.violations.push(Violation::new("general-text", &format!("panic:{}", panic_class(&m)), &[tag], case.clone(), m)),
+                Ok(got) => {
+                    sink.obs(&got);
+                    if got != t {
+                        let sym = if got.parse::<f64>().is_ok() && got.parse::<f64>().ok() == t.parse::<f64>().ok() { "text-reformatted-as-number" } else { "text-changed" };
+                        sink.violations.push(Violation::new("general-text", sym, &[tag], case.clone(), format!("text {:?} with General via {} is shown as {:?}", t, via, got)));
+                    }
+                }
+            }
+        };
+        // text cell, no number format (General is the default)
+        let tt = t.to_string();
+        judge(
+            guarded(move || {
+                let mut ws = umya_spreadsheet::Worksheet::default();
+                ws.get_cell_mut((1, 1)).set_value_string(tt);
+                ws.get_formatted_value((1, 1))
+            }),
+            "text cell (set_value_string), default format",
+            sink,
+        );
+        // text cell, explicit General
+        let tt = t.to_string();
+        judge(
+            guarded(move || {
+                let mut ws = umya_spreadsheet::Worksheet::default();
+                let c = ws.get_cell_mut((1, 1));
+                c.set_value_string(tt);
+                c.get_style_mut().get_number_format_mut().set_format_code("General");
+                c.get_formatted_value()
+            }),
+            "text cell (set_value_string), format General",
+            sink,
+        );
+        if plain {
+            // the helper cannot tell text from numbers, so only texts that are not numerals are passed
+            judge(via_helper(t, "General"), "to_formatted_string", sink);
+        }
+    }
+}
+
+// ------------------------------------------------------------------------------------------------
+/// Excel's codes of the built-in ids that the library's table does not define (used through set_format_code)
+const FALLBACK_CODES: [(u32, &str); 7] = [
+    (5, r##""$"#,##0_);\("$"#,##0\)"##),
+    (6, r##""$"#,##0_);[Red]\("$"#,##0\)"##),
+    (7, r##""$"#,##0.00_);\("$"#,##0.00\)"##),
+    (8, r##""$"#,##0.00_);[Red]\("$"#,##0.00\)"##),
+    (41, r##"_(* #,##0_);_(* \(#,##0\);_(* "-"_);_(@_)"##),
+    (42, r##"_("$"* #,##0_);_("$"* \(#,##0\);_("$"* "-"_);_(@_)"##),
+    (43, r##"_(* #,##0.00_);_(* \(#,##0.00\);_(* "-"??_);_(@_)"##),
+];
+fn value_alphabet() -> Vec<f64> {
+    vec![
+        0.0, -0.0, 1.0, -1.0, 59.0, 60.0, 61.0, 1000.0, 45435.0, 0.5, -0.5, 0.1, 0.05, 0.005, 0.125, 0.999, 0.9999999, 0.333333333333333, 1.5, 2.5, 9.5, 99.5,
+        999.5, 1234.5678, -1234.5678, 44349.211134259262, 2958465.99999, 2958466.0, 1e7, -1e7, 123456789.0, 2147483647.0, 2147483648.0, 4294967296.0, 1e10, -1e10,
+        1e15, 1e16, 1e20, 1e21, 1e100, 1e300, f64::MAX, -f64::MAX, 1e-5, 1e-7, 1e-10, 1e-100, f64::MIN_POSITIVE, 5e-324, -1e-7,
+    ]
+}
+/// magnitude class of a value with respect to the calendar (serial of 9999-12-31 is 2958465; chrono's
+/// NaiveDate ends in year 262142, i.e. near serial 9.5e7)
+fn value_class(x: f64) -> &'static str {
+    let a = x.abs();
+    if a == 0.0 {
+        "val:zero"
+    } else if a < 1.0 {
+        "val:|x|<1"
+    } else if a < 2958466.0 {
+        "val:calendar-range"
+    } else if a < 9.0e7 {
+        "val:beyond-year-9999"
+    } else {
+        "val:beyond-year-262142"
+    }
+}
+fn code_kind(code: &str) -> &'static str {
+    // classification by the harness's own reading of the code (outside quotes / brackets)
+    let mut bare = String::new();
+    let (mut q, mut b) = (false, false);
+    let mut prev_bs = false;
+    for c in code.chars() {
+        if prev_bs {
+            prev_bs = false;
+            continue;
+        }
+        match c {
+            '\\' => prev_bs = true,
+            '"' => q = !q,
+            '[' if !q => b = true,
+            ']' if !q => b = false,
+            _ if !q && !b => bare.push(c.to_ascii_lowercase()),
+            _ => {}
+        }
+    }
+    if code == "General" {
+        "fmt:general"
+    } else if code == "@" {
+        "fmt:text"
+    } else if bare.chars().any(|c| "ymdhs".contains(c)) || code.contains("[h]") {
+        "fmt:date-time"
+    } else if bare.contains('%') {
+        "fmt:percent"
+    } else if bare.contains('/') {
+        "fmt:fraction"
+    } else if bare.contains("e+") || bare.contains("e-") {
+        "fmt:scientific"
+    } else if bare.contains(';') {
+        "fmt:multi-section"
+    } else {
+        "fmt:number"
+    }
+}
+struct Builtin;
+impl Space for Builtin {
+    fn len(&self) -> u64 {
+        50
+    }
+    fn describe(&self, i: u64) -> Value {
+        json!({"kind":"builtin-id","id": i, "values": value_alphabet().len()})
+    }
+    fn tags(&self, i: u64) -> Vec<String> {
+        vec![format!("id:{}", i)]
+    }
+    fn run(&self, i: u64, sink: &mut Sink) {
+        let id = i as u32;
+        // the code the library associates with the id
+        let code = guarded(move || {
+            let mut nf = umya_spreadsheet::NumberingFormat::default();
+            nf.set_number_format_id(id);
+            nf.get_format_code().to_string()
+        });
+        let (code, by_id) = match code {
+            Ok(c) => (c, true),
+            Err(_) => match FALLBACK_CODES.iter().find(|(k, _)| *k == id) {
+                Some((_, c)) => {
+                    sink.count("ids_without_library_code_checked_through_excel_code", 1);
+                    (c.to_string(), false)
+                }
+                None => {
+                    sink.count("ids_without_any_code_skipped", 1);
+                    return;
+                }
+            },
+        };
+        let kind = code_kind(&code);
+        let idtag = format!("id:{}", id);
+        for x in value_alphabet() {
+            let vtag = value_class(x);
+            let sign = if x.is_sign_negative() { "negative" } else { "non-negative" };
+            sink.evaluations += 1;
+            let case = json!({"kind":"builtin","id": id, "code": code, "value": x.to_string()});
+            let combo = format!("{}+{}", kind, vtag);
+            let tags = [combo.as_str(), kind, vtag, sign, idtag.as_str()];
+            sink.beat.note(&format!("id {} code {} value {}", id, code, x));
+            let c2 = code.clone();
+            let r = guarded(move || {
+                let mut ws = umya_spreadsheet::Worksheet::default();
+                let cell = ws.get_cell_mut((1, 1));
+                cell.set_value_number(x);
+                if by_id {
+                    cell.get_style_mut().get_number_format_mut().set_number_format_id(id);
+                } else {
+                    cell.get_style_mut().get_number_format_mut().set_format_code(c2);
+                }
+                cell.get_formatted_value()
+            });
+            match r {
+                Err(m) => sink.violations.push(Violation::new("no-panic", &format!("panic:{}", panic_class(&m)), &tags, case.clone(), format!("Cell::get_formatted_value panicked for value {} with built-in format {} ({:?}): {}", x, id, code, m))),
+                Ok(s) => sink.obs(&format!("{}|{}", id, s)),
+            }
+            let r2 = via_helper(&x.to_string(), &code);
+            if let Err(m) = r2 {
+                sink.violations.push(Violation::new("no-panic", &format!("panic:{}", panic_class(&m)), &tags, case, format!("to_formatted_string({:?}, {:?}) panicked: {}", x.to_string(), code, m)));
+            }
+        }
+    }
+}
+
+// ------------------------------------------------------------------------------------------------
+pub fn space(tier: Tier, id: &str) -> Option<Box<dyn Space>> {
+    match id {
+        "grid" => Some(Box::new(grid(tier))),
+        "families" => Some(Box::new(Families { vals: families() })),
+        "text" => Some(Box::new(Texts)),
+        "builtin" => Some(Box::new(Builtin)),
+        _ => None,
+    }
+}
+
+fn replay(tier: Tier, case: &Value) -> Vec<Violation> {
+    replay_e1(space(tier, case["_space"].as_str().unwrap_or("")), case)
+}
+
+fn run(ctx: &Ctx) -> i32 {
+    if let Ok(path) = std::env::var("UV_C19_DUMP") {
+        // reference dump for the external cross-check (tools/c19_crosscheck.py): value <TAB> pattern <TAB> expected
+        let mut out = String::new();
+        let mut vals = families();
+        for (m, es) in grid(Tier::Quick).cases {
+            for e in es {
+                vals.push(Val::new(false, &m, e - (m.len() as i32 - 1)));
+            }
+        }
+        for v in vals {
+            for neg in [false, true] {
+                let mut v = v.clone();
+                v.neg = neg;
+                for p in PATTERNS.iter() {
+                    let w = reference(&v, p);
+                    out.push_str(&format!("{}\t{}\t{}\t{}\n", v.text(), p.code, w.text, if w.zero { 1 } else { 0 }));
+                }
+            }
+        }
+        std::fs::write(&path, out).expect("dump");
+        println!("reference dump written to {}", path);
+        return 0;
+    }
+    let ids = ["text", "builtin", "families", "grid"];
+    let spaces = ids.iter().map(|id| (*id, space(ctx.tier, id).unwrap())).collect();
+    let thorough = ctx.tier == Tier::Thorough;
+    let g = grid(ctx.tier);
+    let nvals: usize = g.cases.iter().map(|(_, es)| es.len() * 2).sum();
+    run_e1(
+        ctx,
+        E1Spec {
+            spaces,
+            cfg: PoolCfg { chunk: 2, case_timeout: std::time::Duration::from_secs(60), ..Default::default() },
+            level: "exploration",
+            rule: "bounded-exhaustive enumeration of decimal values built from their decimal STRING (the f64 is the double whose shortest representation is that string; values whose Display differs from the string are skipped and counted): every mantissa with <=3 (quick) / <=4 (thorough) significant digits x exponents x both signs, and carry/tie/leading-zero families up to 15 significant digits, each x 14 patterns (0, 0.0..0.000000, #,##0, #,##0.0..#,##0.000, 0%, 0.0%, 0.00%) through helper::number_format::to_formatted_string, and for one pattern per value (rotating) also through Cell::get_formatted_value and Worksheet::get_formatted_value. Oracle: exact decimal-string arithmetic (u128), round half away from zero at the pattern's decimals (x100 for %), carry, separators every three digits, sign kept (sign of a result that rounds to zero is not compared). General: every grid/family value must be shown as its own text (helper and numeric cell); text cells must be shown unchanged. No-panic: every built-in id 0..49 that has a code x 51 finite values through Cell::get_formatted_value and to_formatted_string. distinct_nontrivial = distinct rendered strings".into(),
+            alphabets: json!({
+                "mantissas": g.cases.len(), "grid_values": nvals, "patterns": PATTERNS.iter().map(|p| p.code).collect::<Vec<_>>(),
+                "family_values_per_sign": families().len(), "plain_texts": PLAIN_TEXTS, "numeric_looking_texts": NUMERIC_LOOKING_TEXTS,
+                "builtin_ids": "0..=49", "builtin_value_alphabet": value_alphabet().iter().map(|x| x.to_string().chars().take(24).collect::<String>()).collect::<Vec<_>>(),
+            }),
+            bounds: json!({
+                "significant_digits": if thorough {4} else {3},
+                "exponents": if thorough {"-7..=15 for every mantissa"} else {"-7..=15 for 1-2 digit mantissas, -3..=3 for 3-digit mantissas (one formatting call costs ~0.7 ms)"},
+                "family_digits_max": 15,
+                "cell_entry_point": "one pattern per value (rotating with mantissa, exponent and sign) + General for every value",
+            }),
+            exhaustive: true,
+            caps_hit: vec![],
+            assumptions: vec![
+                "the sign of a result whose rounded magnitude is zero (-0.004 @ 0.00) is not pinned by the statement and not compared".into(),
+                "General 'unchanged' for a number means: the text shown is the number's shortest decimal text in positional notation (magnitudes 1e-7..1e16)".into(),
+                "built-in ids 5-8 and 41-43 have no code in the library's table (NumberingFormat::set_number_format_id panics with 'Not Found NumberFormatId.'); they are exercised through Excel's documented codes via set_format_code; ids 23-26 have no code at all and are skipped".into(),
+                "values with more than 15 significant digits are outside the statement".into(),
+                "the harness is built with overflow-checks=on for /repo too: an i32 overflow inside the formatter surfaces as a panic instead of a wrapped (wrong) digit string".into(),
+            ],
+            min_distinct: 10_000,
+        },
+    )
 }
